@@ -33,6 +33,9 @@ Lemma upd_oob {A} (l : list A) i v : length l <= i -> upd l i v = l.
 Proof. revert i; induction l as [|h t IH]; intros [|k] H; simpl in *; auto; try lia.
   f_equal. apply IH. lia. Qed.
 
+Lemma upd_same {A} (l : list A) i d : upd l i (nth i l d) = l.
+Proof. revert i; induction l as [|h t IH]; intros [|i]; simpl; auto. f_equal. apply IH. Qed.
+
 (* list equality from pointwise equality *)
 Lemma nth_ext_len {A} (l1 l2 : list A) d :
   length l1 = length l2 -> (forall i, i < length l1 -> nth i l1 d = nth i l2 d) -> l1 = l2.
